@@ -78,6 +78,7 @@ def main():
     expand_plates(data)
 
     others = {}
+    restored = {}
     # update the parameters of the models first
     if arg.checkpoint is not None:
         for checkpoint_file in arg.checkpoint:
@@ -90,6 +91,7 @@ def main():
                     else:
                         others[param['id']] = param
                 update_parameters(data, tensors)
+                restored.update(tensors)
     dic = {}
     try:
         for element in data:
@@ -101,6 +103,22 @@ def main():
                 and obj.id in others
                 and hasattr(obj, "load_state_dict")
             ):
+                # parameters that a model creates itself (the weights of a
+                # normalizing flow) are not defined in the configuration and were
+                # not reached by update_parameters: they are restored in place
+                for parameter in getattr(obj, "parameters", []):
+                    if parameter.id in restored:
+                        value = torch.as_tensor(
+                            restored[parameter.id]["tensor"],
+                            dtype=parameter.tensor.dtype,
+                            device=parameter.tensor.device,
+                        )
+                        with torch.no_grad():
+                            if parameter.tensor.shape == value.shape and not torch.equal(
+                                parameter.tensor, value
+                            ):
+                                parameter.tensor.copy_(value)
+                                parameter.fire_parameter_changed()
                 obj.load_state_dict(others[obj.id])
 
             if isinstance(obj, Runnable) and not arg.dry:
